@@ -96,6 +96,13 @@ def misuse(kind, a, b):
         m.st(y[0] >= b['z'])
     elif kind == 'ambiguity_after_constraints':
         m.ambiguity()
+    elif kind == 'st_foreign_maxof':
+        m.st(rso.maxof(y[0], -y[1]) <= 100)
+    elif kind == 'st_foreign_minof':
+        m.st(rso.minof(y[0], -y[1]) >= -100)
+    elif kind == 'st_foreign_Emaxof':
+        from rsome import E
+        m.st(E(rso.maxof(y[0] + b['z'], -y[1])) <= 100)
     elif kind.startswith('robobj_'):
         from rsome import ro, dro
         lo = kind.endswith('_lo')
